@@ -2,7 +2,7 @@
 from common import *
 import itertools
 
-CS_VALUES = [1, 2, 3, 4, 5, 127, 128, 129, 4096, 65536, (1 << 31) - 1]
+CS_VALUES = [1, 2, 3, 4, 5, 127, 128, 129, 4096, 65536, (1 << 31) - 1, 1 << 24, (1 << 24) + 1, (1 << 24) + 100, (1 << 30) + 7]   # sizes ≥ 2^24 whose low 24 bits are small: every size above the longest message means "never split"
 TYPES = [8, 9, 18, 20, 4, 3, 15, 0, 255, 1, 19, 6]
 
 
